@@ -87,15 +87,24 @@ class AtomLevyModel(LevyModel):
                  bg_index=0.5, support=(-np.inf, np.inf), unit=UNIT):
         nu = AtomMeasure(atoms, finite_variation=finite_variation, bg_index=bg_index, support=support, unit=unit)
         super().__init__(ModelType.HEM, LevyTriplet(a=a, sigma=sigma, nu=nu, representation=representation), _NoCumulant())
+        self._declared = representation
 
     def __repr__(self):
         return "AtomLevyModel"
 
     def levy_exponent_pure_jump(self, x):
+        """sum_atoms w (e^{x p} - 1 - x p h(p)) with the cut-off h of the representation the model was DECLARED in"""
         nu = self.levy_triplet.nu
         while not isinstance(nu, AtomMeasure):
             nu = nu.levy_measure
-        return complex(np.sum(nu.w * (np.exp(x * nu.pos) - 1.0)))
+        r = self._declared
+        if r == LevyRepresentation.ZERO or (r == LevyRepresentation.TILDE and nu.jump_of_finite_variation()):
+            h = np.zeros_like(nu.pos)
+        elif r == LevyRepresentation.CENTER:
+            h = np.ones_like(nu.pos)
+        else:
+            h = (np.abs(nu.pos) < 1.0).astype(float)
+        return complex(np.sum(nu.w * (np.exp(x * nu.pos) - 1.0 - x * nu.pos * h)))
 
     def intensity(self):
         return self.levy_triplet.nu.integrate(-np.inf, np.inf)
